@@ -23,3 +23,19 @@ P["C14"] = {"assumptions": [A["KANI"], A["FLOAT"]], "trusted_base": TB_K,
             "not_decided": ["betweenness / same-value / nearest for 16..64-bit integer types and f32/f64 over all f32 x (two symbolic float products: no result in 600 s with cadical, kissat or cvc5); 8-bit types are proved for all x in the thorough tier", "monotonicity in x", "glam vector types (component-wise by construction of three macros)"]}
 P["C20"] = {"assumptions": [A["A1"], A["KANI"], A["FLOAT"]], "trusted_base": TB_K + TB_V,
             "not_decided": ["debug == release: every proof runs with overflow checks on (debug semantics) and shows no overflow, so both profiles compute the same; native replays run in the debug profile only", "Easing::Custom and Back-family overshoot beyond an integer type's range (documented panic)"]}
+A6T = "A6: Bevy's ECS (queries, Changed<> filtering, system ordering .before(animate), event buffering, Time) is replaced by shims; the per-entity loop bodies of animate/select_animation/chain_animations are extracted byte-for-byte each run (tools/extract_bevy.py) with the loop header turned into a function header and `continue` into `return`"
+P["C18"] = {"assumptions": [A6T, "A4' Duration::as_secs_f32 abstracted as a monotone function", A["KANI"]], "trusted_base": TB_K + ["shims in contracts/kani/bevy/shim.rs"],
+            "not_decided": ["multi-frame sentences (Ended no later than one frame after the position reaches the duration; exactly one Ended per run) follow from the one-step contract by induction over frames (state monotone, Ended absorbing, Ended <=> pos >= duration at the step) - argued in DESIGN.md, not machine-checked", "that Bevy runs the system once per frame with the real Time; plugin registration (bevy/src/lib.rs:139-146)"]}
+P["C19"] = {"assumptions": [A6T, A["KANI"]], "trusted_base": TB_K + ["shims in contracts/kani/bevy/shim.rs"],
+            "not_decided": ["'the chain never fires when some OTHER animator on the entity ended': AnimationStateChanged carries no component type, so chain_animations::<K,T> cannot tell; with the one-animator-per-entity shim this cannot be expressed - recorded as known finding C19-event-has-no-component-type (DESIGN.md), demonstrated by reading the event type, not by a harness",
+                            "Changed<> filtering, .before(animate) ordering, event buffering across frames (A6)"]}
+P["C17"] = {"assumptions": [A["KANI"], "rustc's expansion of derive(Animate) is what is verified; the proc-macro code itself (syn/quote) is not within reach of the verifiers", "callees replaced by scripted stubs: the generated glue is proved against every behaviour of the callees"],
+            "trusted_base": TB_K + TB_V, "not_decided": ["bounded over programs: four struct shapes (see bound); generic structs, tuple structs and enums are rejected by the macro at compile time"]}
+P["C09"] = {"assumptions": [A["A5"], A["KANI"], "generated update takes &self: no interior mutability in SubTimeline/TimeScale/generated struct (textual scan)"],
+            "trusted_base": TB_K + TB_V, "not_decided": ["'independent of the order of queries' is by A5 (update cannot write to self) plus update's result being a function of (self, time) on the animated fields (update_contract: prior field content irrelevant)"]}
+
+for pid, why in (("C11", "bounded stand-in: TimelineBuilderArguments::from is verified by contract harnesses for 0..3 keyframes (std sort executed); positions and timing fully symbolic"),
+                 ("C12", "bounded stand-in: MergedTimeline is verified by contract harnesses for 0..3 arbitrary component timelines; Repeat's order is proved completely"),
+                 ("C17", "bounded over programs: contract harnesses on the real derive expansion for four struct shapes, every value symbolic; from_keyframes itself is proved for every size (Verus)")):
+    P[pid]["level"] = "other"
+    P[pid]["explanation"] = why
